@@ -249,7 +249,8 @@ def run(ck, F, E):
         names = [c.callee.split("::")[-1] for c in fv.calls()]
         backwards = [c for c in fv.calls() if c.callee.split("::")[-1] in ("rev", "rfind", "rposition", "next_back", "rfold")
                      and expr_has_field(fv.expr(c.args[0]), "stack")]
-        uses_has = bool(fv.calls_to("Variables::has")) or bool(fv.calls_to("Variables::get"))
+        bodies = [fv] + [cb for cb in F.bodies.values() if cb.kind == "Closure" and cb.parent == fv.path]
+        uses_has = any(bool(x.calls_to("Variables::has")) or bool(x.calls_to("Variables::get")) for x in bodies)
         ck.require(bool(backwards) and uses_has, "C03:SCOPE:innermost-first", "dynamic parameter scoping",
                    "frames are searched from the top of the stack (%s)" % sorted({c.callee.split("::")[-1] for c in backwards}),
                    "find_variable_value_in_stack no longer walks the frames innermost-first (calls: %s): a nested FN call sees an "
